@@ -331,9 +331,15 @@ Definition grpc_is_stream (t : gtable) (full : string) : bool :=
 
 (** * eth JSON-RPC gate (ethrpc.httpServer.ServeHTTP / checkIPWhitelist) *)
 
+(** the list the gate walks: "whitlist" when "whitelist" is empty or when "whitlist" is
+    a single star, else "whitelist" (same precedence as InitIPWhitelist) *)
+Definition eth_list (cfg : config) : list string :=
+  if is_nil (c_whitelist cfg) || is_star (c_whitlist cfg) then c_whitlist cfg
+  else c_whitelist cfg.
+
 Definition eth_ip_gate (cfg : config) (c : client) : bool :=
   is_loopback c ||
-  let wl := c_whitelist cfg in
+  let wl := eth_list cfg in
   if is_nil wl || is_star wl then true
   else existsb (fun a => String.eqb a "0.0.0.0" || String.eqb a (lookup_text c)) wl.
 
